@@ -101,11 +101,29 @@ PROPS['C20'] = dict(
 
 PROPS['C01'] = dict(
     level='other',
-    claim='(under construction) Continuous._find_resources verified: cores handed out are free and pairwise distinct, whole GPUs free and distinct, GPU shares plus prior occupancy sum to at most one per GPU, blocked (DOWN) cells never handed out, lfs/mem of the slots within the node; all obligations discharged for every node size and request',
-    note='schedule_task, _change_slot_states, the scheduler loop and the application-level finder are being added',
-    assumptions=['A1', 'A2', 'A3', 'A4', 'A8', 'A11'],
-    explanation='per-node search under contract; occupancy invariant over grant/release being added',
-    clauses={'no core twice / shares <= 1 / lfs, mem within node (one node, one call)': 'P'})
+    claim='agent scheduler: the per-node search, the multi-node placement, marking and unmarking, the grant operation (_try_allocation: occupancy invariant preserved, only free cells handed out, exactly the named cells marked, lfs/mem debited within what the node has) and the node iterator are verified for every node list and request; lemmas: a held cell is never offered again, a rotation is a permutation; the recursive sums are justified by induction lemmas',
+    note='application-supplied placements (td.slots branch of _schedule_incoming), resource_config.Node (application-level finder), ContinuousJsrun/NumaNode and the RM-side blocked/agent-node marking are not yet under contract here',
+    assumptions=['A1', 'A2', 'A3', 'A4', 'A7', 'A8', 'A9', 'A11'],
+    explanation='Inv_sched (distinct node indices, cells in {DOWN, FREE, BUSY}, lfs/mem >= 0) is preserved by the grant operation and by release; whole-view postconditions on _change_slot_states; property stated over operations (single-threaded scheduler loop)',
+    clauses={'no core twice / GPU shares <= 1 / lfs, mem within node': 'P',
+             'blocked (DOWN) cells never handed out': 'P',
+             'every interleaving of grant / release operations (operation granularity)': 'P per operation + lemmas',
+             'application-supplied placement': 'not yet built',
+             'agent / service nodes excluded (RM)': 'see C18',
+             'NumaNode / ContinuousJsrun': 'N (not built)'})
+
+PROPS['C03'] = dict(
+    level='other',
+    claim='release is verified as the exact inverse of grant: _change_slot_states has whole-view postconditions (named cells marked, nothing else, lfs/mem moved by the per-node sums), lemma C03.roundtrip (grant then release restores every cell, lfs and mem), lemma C03.held-not-offered, and _unschedule_completed releases every received task once (one _active_cnt decrement and one unschedule per message)',
+    note='exactly-one release message per granted task is the executor\'s half (C07); the transport between the two components is assumed; idle => initial capacity follows from the round-trip lemma by induction over the history (meta-level)',
+    assumptions=['A1', 'A2', 'A3', 'A4', 'A5', 'A7', 'A8', 'A9', 'A11'],
+    trusted_base=['mp.Queue get/put (stdlib): every message put is returned by exactly one get'],
+    explanation='inverse lemma over the two contracts + per-message release',
+    clauses={'release restores precisely what was taken': 'P',
+             'nothing held is offered to another task': 'P',
+             'one release per unschedule message': 'P',
+             'exactly one message per granted task (executor)': 'C07',
+             'application-placed tasks (td.slots branch)': 'not yet built'})
 
 PROPS['C02'] = dict(
     level='proof',
